@@ -48,7 +48,7 @@ fn op(u: &mut Unstructured) -> arbitrary::Result<Op> {
         9 => Op::Double,
         10 => Op::Half,
         11 => Op::Square,
-        12 => Op::Extend { by: u.arbitrary()?, form: u.int_in_range(0..=2)? },
+        12 => Op::Extend { by: u.int_in_range(0..=80)?, form: u.int_in_range(0..=2)? },
         13 => {
             if u.ratio(1, 2)? {
                 Op::Normalize
